@@ -199,7 +199,7 @@ func (e *kvElection) Start(ctx context.Context) error {
 	// The previous run may have ended through its context an instant ago, before
 	// its clean-up goroutine got hold of the mutex: give up its claim here.
 	if e.ctx != nil {
-		if onDemote := e.giveUpClaimLocked(e.ctx); onDemote != nil {
+		if onDemote := e.giveUpClaimLocked(e.ctx, "context_cancelled"); onDemote != nil {
 			go onDemote()
 		}
 	}
@@ -447,6 +447,15 @@ func (e *kvElection) becomeLeader(token string, rev uint64) {
 		return
 	}
 
+	// Two acquisition rounds of this instance can both have written a record (the
+	// first one's was removed in between) and both have passed endSupersededTerm
+	// before either got here. The earlier term is then ended in the same critical
+	// section that starts the new one; its OnDemote runs before the new OnPromote.
+	var earlierDemote func()
+	if e.isLeader.Load() {
+		earlierDemote = e.giveUpClaimLocked(e.ctx, "superseded_by_new_acquisition")
+	}
+
 	fromState := StateInit
 	if s := e.state.Load(); s != nil {
 		if str, ok := s.(string); ok {
@@ -508,6 +517,14 @@ func (e *kvElection) becomeLeader(token string, rev uint64) {
 	// the value read here, under the mutex.
 	onPromote := e.onPromote
 
+	if onPromote == nil && earlierDemote != nil {
+		e.wg.Add(1)
+		go func() {
+			defer e.wg.Done()
+			earlierDemote()
+		}()
+	}
+
 	if onPromote != nil {
 		log.Info("leader_promoted",
 			append(e.logWithContext(e.ctx),
@@ -529,6 +546,9 @@ func (e *kvElection) becomeLeader(token string, rev uint64) {
 			}()
 			promoteCtx, cancel := context.WithCancel(termCtx)
 			defer cancel()
+			if earlierDemote != nil {
+				earlierDemote()
+			}
 			onPromote(promoteCtx, token)
 		}()
 	}
@@ -682,7 +702,7 @@ func (e *kvElection) demoteOnContextDone(runCtx context.Context) {
 		e.mu.Unlock()
 		return
 	}
-	onDemote := e.giveUpClaimLocked(runCtx)
+	onDemote := e.giveUpClaimLocked(runCtx, "context_cancelled")
 	e.mu.Unlock()
 
 	if onDemote != nil {
@@ -692,7 +712,7 @@ func (e *kvElection) demoteOnContextDone(runCtx context.Context) {
 
 // giveUpClaimLocked clears the claim of a run that has ended through its context
 // and returns the OnDemote callback to invoke, if any. e.mu must be held.
-func (e *kvElection) giveUpClaimLocked(runCtx context.Context) func() {
+func (e *kvElection) giveUpClaimLocked(runCtx context.Context, reason string) func() {
 	if !e.isLeader.Load() {
 		return nil
 	}
@@ -723,7 +743,7 @@ func (e *kvElection) giveUpClaimLocked(runCtx context.Context) func() {
 		append(e.logWithContext(runCtx),
 			zap.String("from_state", fromState),
 			zap.String("to_state", StateFollower),
-			zap.String("reason", "context_cancelled"),
+			zap.String("reason", reason),
 		)...,
 	)
 
@@ -734,7 +754,7 @@ func (e *kvElection) giveUpClaimLocked(runCtx context.Context) func() {
 	return func() {
 		log.Info("leader_demoted",
 			append(e.logWithContext(runCtx),
-				zap.String("reason", "context_cancelled"),
+				zap.String("reason", reason),
 			)...,
 		)
 		onDemote()
